@@ -4,6 +4,7 @@ mod explore;
 mod sim;
 mod wire;
 
+mod s_acks;
 mod s_delivery;
 
 use vutil::{Args, Report};
@@ -12,6 +13,8 @@ fn scenarios(id: &str, args: &Args) -> Option<Vec<explore::Scenario>> {
     Some(match id {
         "C01" => s_delivery::c01(args),
         "C02" => s_delivery::c02(args),
+        "C03" => s_acks::c03(args),
+        "C04" => s_acks::c04(args),
         _ => return None,
     })
 }
